@@ -92,6 +92,12 @@ def run(ctx):
             pushed = {names.get(l) for l, s in lp["skippable"].items() if not s}
             ctx.check({"signing_nonces", "signing_commitments"} <= pushed, "RED", f.key, "both-vectors-pushed-each-iteration",
                       "every iteration must push the pair's nonces and commitments (%s)" % pushed, f.loc)
+        if lr:
+            dr = [bb for (bb, t, ci) in f.calls() if ci and (ci.get("name") == "new" and (ci.get("self_adt") or "").endswith("SigningNonces")
+                                                             or ci.get("name") == "fill_bytes")]
+            ctx.check(len(dr) == 1 and dr[0] in lr[0]["body"], "DRAW", f.key, "pair-drawn-inside-the-loop",
+                      "each pre-processed pair must be drawn inside the loop (a batch that draws once and clones reuses "
+                      "nonces)", f.loc)
         t = v.cx.local(0)
         good = t[0] == "agg" and t[1] == "tuple"
         if good:
